@@ -70,6 +70,53 @@ def fam_plates(rng, axi):
     return p, cf, "plates-" + p.ptype
 
 
+def fam_layers(rng, variant):
+    """two dielectric layers STACKED between the plates (interface perpendicular to the field): the flux density is uniform, the field and
+    the potential piecewise linear - reproduced exactly since the interface is a line of the mesh; the layers are isotropic / anisotropic in
+    four combinations, with EQUAL x permittivities in two of them; probes sit within an element of the interface on both sides (the
+    post-processor smooths D over neighbouring nodes 'of the same material')"""
+    p = Problem("e")
+    p.units = rng.choice(UNITS)
+    p.ptype = "planar"
+    p.depth = rng.choice([1.0, 2.5])
+    p.precision = 1e-10
+    p.smartmesh = 0
+    W, H = rng.choice([2.0, 4.0]), rng.choice([2.0, 3.0])
+    e = rng.choice([2.0, 4.5])
+    e2 = rng.choice([1.0, 7.0])
+    mats = [((e, e), (e, e2)), ((e, e2), (e, e)), ((e, e), (e2, e2)), ((e, e2), (e, 3.0))][variant % 4]
+    V0 = rng.choice([1.0, 100.0, -12.5])
+    p.blockprops = [dict(name="lower", ex=mats[0][0], ey=mats[0][1]), dict(name="upper", ex=mats[1][0], ey=mats[1][1])]
+    p.bdryprops = [dict(name="gnd", type=0, Vs=0.0)]
+    p.circprops = [dict(name="top", V=V0, q=0.0, type=1)]
+    a, b, c, d = p.add_node(0, 0), p.add_node(W, 0), p.add_node(W, H), p.add_node(0, H)
+    m0, m1 = p.add_node(0, H / 2), p.add_node(W, H / 2)
+    p.segs[p.add_seg(a, b)]["bc"] = 0
+    p.segs[p.add_seg(d, c)]["cond"] = 0
+    for (u_, v_) in ((a, m0), (m0, d), (b, m1), (m1, c), (m0, m1)):
+        p.add_seg(u_, v_)
+    ms = rng.choice([0.15, 0.25]) * min(W, H)
+    p.add_label(W / 2, H / 4, 0, meshsize=ms)
+    p.add_label(W / 2, 3 * H / 4, 1, meshsize=ms)
+    u = UNIT_M[p.units]
+    h = H / 2 * u
+    s_ = h / mats[0][1] + h / mats[1][1]
+    Dy = -EPS0 * V0 / s_                       # D = eps E, E = -grad V, V rises from 0 to V0
+    E1, E2 = Dy / (EPS0 * mats[0][1]), Dy / (EPS0 * mats[1][1])
+    A = (W * u) * (p.depth * u)
+    C = EPS0 * A / s_
+
+    def value(x, y):
+        return -E1 * y * u if y <= H / 2 else -E1 * h - E2 * (y - H / 2) * u
+    probes = []
+    for dy in (-0.45, -0.1, -0.03, 0.03, 0.1, 0.45):
+        for fx in (0.31, 0.5, 0.83):
+            y = H / 2 + dy * H / 2
+            probes.append((fx * W, y, (0.0, E1 if dy < 0 else E2), (0.0, Dy)))
+    cf = dict(value=value, energy=0.5 * C * V0 ** 2, charge=C * V0, field=(0.0, E1), probe=(W / 2, H / 4), name="top", probes=probes)
+    return p, cf, "layers-%d" % (variant % 4)
+
+
 def fam_slab(rng, axi):
     p = Problem("h")
     p.units = rng.choice(UNITS)
@@ -146,6 +193,10 @@ def fam_coax(rng, ms):
     return p, cf
 
 
+def H_of(p):
+    return max(n["y"] for n in p.nodes)
+
+
 def main(argv):
     ck = vlib.Check("C06", "proof", argv)
     ck.cov["rule"] = ("closed-form families with random dimensions, material constants, boundary values, units, depths, mesh sizes and "
@@ -163,7 +214,8 @@ def main(argv):
     fams = []
     for r in range(nrep):
         fams += [lambda rr=rng: fam_plates(rr, False), lambda rr=rng: fam_plates(rr, True), lambda rr=rng: fam_slab(rr, False),
-                 lambda rr=rng: fam_slab(rr, True), lambda rr=rng: fam_uniformB(rr, False), lambda rr=rng: fam_uniformB(rr, True)]
+                 lambda rr=rng: fam_slab(rr, True), lambda rr=rng: fam_uniformB(rr, False), lambda rr=rng: fam_uniformB(rr, True),
+                 lambda rr=rng, v=2 * r: fam_layers(rr, v), lambda rr=rng, v=2 * r + 1: fam_layers(rr, v)]
     try:
         for t, mk in enumerate(fams):
             p, cf, name = mk()
@@ -220,6 +272,25 @@ def main(argv):
                     ck.violation("energy:" + name, "stored energy %.9g J, closed form %.9g J (%s, %s)" % (out["W"][0], cf["energy"], p.units, p.ptype), dict(files=run.files()))
                 if not (qerr <= 1e-6):
                     ck.violation("charge:" + name, "conductor charge %.9g C, closed form %.9g C (%s, %s)" % (out["q"][1], cf["charge"], p.units, p.ptype), dict(files=run.files()))
+                if cf.get("probes"):
+                    s2 = lua_post.Session(p.kind, "p" + femmio.EXT[p.kind], analyze=False)
+                    for k_, (x_, y_, _, _) in enumerate(cf["probes"]):
+                        s2.point("pr%d" % k_, x_, y_)
+                    rc2, out2, raw2 = s2.run(build, run.dir)
+                    for k_, (x_, y_, Ecf, Dcf) in enumerate(cf["probes"]):
+                        v_ = out2.get("pr%d" % k_)
+                        if rc2 != 0 or not v_ or any(v_[i_] is None for i_ in (1, 2, 3, 4)):
+                            ck.violation("post-failed:" + name, "point values at (%g, %g) come back incomplete: %r" % (x_, y_, v_), dict(files=run.files()))
+                            break
+                        derr = math.hypot(v_[1] - Dcf[0], v_[2] - Dcf[1]) / abs(Dcf[1])
+                        eerr = math.hypot(v_[3] - Ecf[0], v_[4] - Ecf[1]) / abs(Ecf[1])
+                        stats["worst_layer_probe_error"] = max(stats.get("worst_layer_probe_error", 0.0), derr, eerr)
+                        stats["layer_probes"] = stats.get("layer_probes", 0) + 1
+                        if not (derr <= 1e-6 and eerr <= 1e-6):
+                            ck.violation("field:" + name, "stacked layers %r / %r (%s): at (%.6g, %.6g), %.3g of the height from the interface, D = (%.6g, %.6g), E = (%.6g, %.6g); "
+                                         "the closed form is D = (0, %.6g), E = (0, %.6g)" % ((p.blockprops[0]["ex"], p.blockprops[0]["ey"]), (p.blockprops[1]["ex"], p.blockprops[1]["ey"]),
+                                         p.units, x_, y_, abs(y_ - H_of(p) / 2) / H_of(p), v_[1], v_[2], v_[3], v_[4], Dcf[1], Ecf[1]), dict(files=run.files(), values=v_))
+                            break
             elif p.kind == "h":
                 Gx, Gy = pv[3], pv[4]
                 Fy = pv[2]
